@@ -133,10 +133,19 @@ pub struct SetDowngradeAccounts {
     pub b: MaybeMut<false, Mut<AccountInfo>>,
 }
 
-/// The one-field account set: the IDL is the bare `Single` (no struct).
+/// The one-field account set (keeps its struct definition in the IDL since /repo 411da64).
 #[derive(AccountSet, Debug)]
 pub struct SetOneAccounts {
     pub only: Mut<Signer<AccountInfo>>,
+}
+
+/// Optional single accounts only (lowers to Codama, unlike `SetOpt` whose optional group is an `Or`).
+#[derive(AccountSet, Debug)]
+pub struct SetOptFlatAccounts {
+    pub a: Option<Signer<Mut<AccountInfo>>>,
+    pub b: Option<Program<System>>,
+    pub mid: Mut<AccountInfo>,
+    pub last: Option<AccountInfo>,
 }
 
 // ------------------------------------------------------------------------------------------------ instructions
@@ -154,6 +163,7 @@ ix!(SetMany, SetManyAccounts);
 ix!(SetNested, SetNestedAccounts);
 ix!(SetInit, SetInitAccounts);
 ix!(SetOne, SetOneAccounts);
+ix!(SetOptFlat, SetOptFlatAccounts);
 ix!(SetEmpty, EmptyAccounts);
 
 /// An instruction with real arguments (layout of instruction data = discriminant ++ borsh(args)).
@@ -173,6 +183,7 @@ pub enum HxIdlInstructionSet {
     SetNested(SetNested),
     SetInit(SetInit),
     SetOne(SetOne),
+    SetOptFlat(SetOptFlat),
     SetEmpty(SetEmpty),
     WithArgs(WithArgs),
 }
@@ -254,7 +265,7 @@ pub fn set_table() -> Vec<SetEntry> {
         ),
         e(
             "nested",
-            format!("(struct (head (signer 1 info)) (pair {pair}) (boxed (box {pair})) (one (signer 1 (mut 1 info))) (tup (struct (# (mut 1 info)) (# info))) (none (struct)) (bx (box (mut 1 info))))"),
+            format!("(struct (head (signer 1 info)) (pair {pair}) (boxed (box {pair})) (one (struct (only (signer 1 (mut 1 info))))) (tup (struct (# (mut 1 info)) (# info))) (none (struct)) (bx (box (mut 1 info))))"),
             star_frame::star_frame_idl::item_source::<SetNested>(),
         ),
         e(
@@ -264,7 +275,12 @@ pub fn set_table() -> Vec<SetEntry> {
             ),
             star_frame::star_frame_idl::item_source::<SetInit>(),
         ),
-        e("one", "(mut 1 (signer 1 info))".to_string(), star_frame::star_frame_idl::item_source::<SetOne>()),
+        e("one", "(struct (only (mut 1 (signer 1 info))))".to_string(), star_frame::star_frame_idl::item_source::<SetOne>()),
+        e(
+            "optflat",
+            format!("(struct (a (opt (signer 1 (mut 1 info)))) (b (opt (fixed {sys}))) (mid (mut 1 info)) (last (opt info)))"),
+            star_frame::star_frame_idl::item_source::<SetOptFlat>(),
+        ),
         e("empty", "(struct)".to_string(), star_frame::star_frame_idl::item_source::<SetEmpty>()),
     ]
 }
